@@ -191,6 +191,10 @@ fn json_str(v: &serde_json::Value) -> String {
     }
 }
 
+pub fn canon_data_pub(code: &str, data: Option<&serde_json::Value>) -> Vec<String> {
+    canon_data(code, data)
+}
+
 fn canon_data(code: &str, data: Option<&serde_json::Value>) -> Vec<String> {
     let keys: &[&str] = match code {
         "keep-sorted" => &["order_by"],
